@@ -1556,7 +1556,13 @@ def _swap_implicit_if_else(source: str) -> str:
 
 
 def swap_if_else(source: str) -> str:
-    source = _swap_implicit_if_else(source)
+    # _swap_implicit_if_else swaps one if at a time
+    for _ in range(source.count("if ")):
+        new_source = _swap_implicit_if_else(source)
+        if new_source == source:
+            break
+        source = new_source
+
     source = _swap_explicit_if_else(source)
 
     return source
